@@ -223,8 +223,8 @@ func R28() Rule {
 							}
 						case *ssa.Call:
 							if sc := x.Call.StaticCallee(); sc != nil && sc.Pkg != nil && sc.Pkg.Pkg.Path() == core.PkgBttest {
-								if r, ok := allowedCalls[sc.Name()]; ok {
-									why = append(why, sc.Name()+": "+r)
+								if r, ok := allowedCalls[core.FuncName(sc)]; ok {
+									why = append(why, core.FuncName(sc)+": "+r)
 									continue
 								}
 							}
@@ -365,7 +365,7 @@ func R28() Rule {
 						}
 						isNil := (bin.Op == token.EQL) == f.Polarity
 						if call, ok := core.Resolve(bin.X).(*ssa.Call); ok && isNil {
-							if sc := call.Call.StaticCallee(); sc != nil && (sc.Name() == "getFamily" || sc.Name() == "getColumn") {
+							if sc := call.Call.StaticCallee(); sc != nil && (core.FuncName(sc) == "getFamily" || core.FuncName(sc) == "getColumn") {
 								guarded = true
 							}
 						}
